@@ -16,7 +16,13 @@
         sols   forks / path-following points of SolvedMaze  [[sol, fidx, fco, eidx, eco, pidx, pco],...]
      "lattice": n, lca = lattice_connection_array(n), md = manhattan_distance(lca),
                 md2 = [[a, b, dist],...], maxdeg = lattice_max_degrees(n) ([] when n < 2)
-   All clauses are Layer P (the property's own statement). *)
+   Both kinds: argmod = names of calls after which an argument array (or the maze's own connection
+   structure: "maze:<view>") differed from its snapshot.
+   "maze" also: isconn0 = sizes of the answers to an EMPTY edge batch (-1 = raised);
+                sols_m  = like sols, for walks that revisit cells.
+   All clauses are Layer P (the property's own statement) except those named "M:..." (Layer M:
+   the statement is silent on them): a call that modifies its argument, the answer to an empty
+   batch, the fork rule on walks that are not simple paths. *)
 EXTENDS GraphViews, Json, IOUtils, SequencesExt
 Log == ndJsonDeserialize(IOEnv.VERIF_LOG)
 
@@ -52,6 +58,9 @@ MazeClauses(r) ==
       E == EdgeSlots(R, C, cn)
   IN
   {"raised_or_malformed:" \o r.err[k] : k \in 1..Len(r.err)}
+  \cup {"M:argument_modified:" \o r.argmod[k] : k \in 1..Len(r.argmod)}
+  \cup V(\A k \in 1..Len(r.isconn0) : r.isconn0[k] = 0, "M:is_connection_empty_batch")
+  \cup UNION {{"M:nonsimple_solution:" \o x : x \in SolClauses(R, C, cn, r.sols_m[k])} : k \in 1..Len(r.sols_m)}
   \cup V(Len(r.nodes) = R * C /\ CellSet(r.nodes) = Nodes(R, C), "get_nodes")
   \cup V(/\ Len(r.deg) = R
          /\ \A i \in 1..R : /\ Len(r.deg[i]) = C
@@ -78,6 +87,7 @@ MazeClauses(r) ==
 LatticeClauses(r) ==
   LET n == r.n  q == r.lca IN
   {"raised_or_malformed:" \o r.err[k] : k \in 1..Len(r.err)}
+  \cup {"M:argument_modified:" \o r.argmod[k] : k \in 1..Len(r.argmod)}
   \cup V(/\ Len(q) = 2 * n * (n - 1)
     /\ \A k \in 1..Len(q) : /\ InGridCell(n, n, Cell(q[k][1])) /\ InGridCell(n, n, Cell(q[k][2]))
                             /\ Adjacent(Cell(q[k][1]), Cell(q[k][2]))
